@@ -41,3 +41,11 @@ Fixpoint cc_run (c : client) (steps : cc_case) : bool :=
   end.
 Definition cc_ok (steps : cc_case) : bool := cc_run init_client steps.
 Definition cc_mismatches (cs : list cc_case) : list N := idx_filter cc_ok 0 cs.
+
+(* data delivery: all events of a script and, for every data-collecting command, what its
+   Collect/Wait returned *)
+Definition cd_case := (list cev * list (N * list N))%type.
+Definition cd_ok (c : cd_case) : bool :=
+  let '(evs, obs) := c in
+  forallb (fun o => list_eqb N.eqb (collected evs (fst o)) (snd o)) obs.
+Definition cd_mismatches (cs : list cd_case) : list N := idx_filter cd_ok 0 cs.
